@@ -120,7 +120,7 @@ def evolve_once(j, rng, counter, force_kind=None):
                     old = f['name']
                     f['name'] = 'renamed%d' % counter[0]
                     f['aliases'] = [old]
-                    return j, 'rename-field-alias', True
+                    return j, 'rename-field-alias', None
                 if kind == 'rename-type-alias' and not is_referenced(j, x):
                     counter[0] += 1
                     old = x['name']
@@ -145,7 +145,7 @@ def evolve_once(j, rng, counter, force_kind=None):
                     return j, 'enum-remove-symbol(no-default)', False
                 if kind == 'enum-reorder' and len(syms) > 1:
                     syms.reverse()
-                    return j, 'enum-reorder', True
+                    return j, 'enum-reorder', None
             if isinstance(x, list):
                 if kind == 'union-add-branch':
                     have = [prim_of(b) for b in x]
@@ -160,9 +160,9 @@ def evolve_once(j, rng, counter, force_kind=None):
                         return j, 'union-remove-branch', False
                 if kind == 'union-reorder' and len(x) > 1 and all(not has_ref(b) for b in x):
                     x.reverse()
-                    return j, 'union-reorder', True
+                    return j, 'union-reorder', None
                 if kind == 'unwrap-union' and len(x) == 1 and not in_union(p, j):
-                    return setp(j, p, x[0]), 'unwrap-union', True
+                    return setp(j, p, x[0]), 'unwrap-union', None
             if kind == 'wrap-in-union' and not isinstance(x, list) and not in_union(p, j) and (pr is not None):
                 return setp(j, p, rng.choice([[x]] if pr == 'null' else [[x], ['null', x], [x, 'null']])), 'wrap-in-union', True
     return None
